@@ -170,43 +170,55 @@ def splitN3 (x : Str) : List Str :=
     | none => [a, r]
     | some (b, c) => [a, b, c]
 
-/-- handle_volumes (after D4) -/
+def volSource (parts : List Str) : Str := match parts with | a :: _ :: _ => a | _ => []
+def volDest (parts : List Str) : Str := match parts with | _ :: b :: _ => b | [a] => a | [] => []
+def volOptions (parts : List Str) : Str := match parts with | [_, _, c] => ':' :: c | _ => []
+
+/-- one `Volume=` value of handle_volumes (after D4) -/
+def volumeStep (E : Env) (unitPath : Str) (acc : List Str × SUnit) (volume : Str) : R (List Str × SUnit) :=
+  let parts := splitN3 volume
+  if (volSource parts).isEmpty then .ok (acc.1 ++ [s "-v", volDest parts], acc.2)
+  else match handleStorageSource E unitPath acc.2 (volSource parts) false with
+    | .error e => .error e
+    | .ok r =>
+      if r.1.isEmpty then .ok (acc.1 ++ [s "-v", volDest parts], r.2)
+      else .ok (acc.1 ++ [s "-v", r.1 ++ ':' :: volDest parts ++ volOptions parts], r.2)
+
+/-- handle_volumes -/
 def handleVolumes (E : Env) (unitPath : Str) (u : SUnit) (sec : Str) (svc : SUnit) : R (List Str × SUnit) :=
-  (lookupAll u sec (s "Volume")).foldlM (fun (acc : List Str × SUnit) volume => do
-    let parts := splitN3 volume
-    let (source, dest) := match parts with
-      | a :: b :: _ => (a, b)
-      | [a] => ([], a)
-      | [] => ([], [])
-    let options := match parts with | [_, _, c] => ':' :: c | _ => []
-    if source.isEmpty then pure (acc.1 ++ [s "-v", dest], acc.2)
-    else do
-      let (src, svc) ← handleStorageSource E unitPath acc.2 source false
-      if src.isEmpty then pure (acc.1 ++ [s "-v", dest], svc)
-      else pure (acc.1 ++ [s "-v", src ++ ':' :: dest ++ options], svc)) ([], svc)
+  (lookupAll u sec (s "Volume")).foldlM (volumeStep E unitPath) ([], svc)
+
+def netNameOf (network : Str) : Str := match splitOnce ':' network with | some (n, _) => n | none => network
+def netOptionsOf (network : Str) : Option Str := match splitOnce ':' network with | some (_, o) => some o | none => none
+
+/-- the reference part of one `Network=` value: the podman name and the service with its dependencies -/
+def networkRef (E : Env) (name : Str) (svc : SUnit) : R (Str × SUnit) :=
+  if endsWith name (s ".network") || endsWith name (s ".container") then
+    match E.info name with
+    | none => .error (Err.internal (s "unit") name)
+    | some i =>
+      if i.resourceName.isEmpty then .error (Err.resourceName name)
+      else
+        let f := serviceFileName i
+        .ok (i.resourceName, addS (addS svc "Unit" "Requires" f) "Unit" "After" f)
+  else .ok (name, svc)
+
+/-- one `Network=` value of handle_networks -/
+def networkStep (E : Env) (acc : List Str × SUnit) (network : Str) : R (List Str × SUnit) :=
+  if network.isEmpty then .ok acc else
+  let name := netNameOf network
+  let isCtr := endsWith name (s ".container")
+  match networkRef E name acc.2 with
+  | .error e => .error e
+  | .ok r =>
+    match netOptionsOf network with
+    | some o => if isCtr then .error .networkOptions else .ok (acc.1 ++ [s "--network", r.1 ++ ':' :: o], r.2)
+    | none => if isCtr then .ok (acc.1 ++ [s "--network", s "container:" ++ r.1], r.2)
+              else .ok (acc.1 ++ [s "--network", r.1], r.2)
 
 /-- handle_networks -/
 def handleNetworks (E : Env) (u : SUnit) (sec : Str) (svc : SUnit) : R (List Str × SUnit) :=
-  (lookupAll u sec (s "Network")).foldlM (fun (acc : List Str × SUnit) network => do
-    if network.isEmpty then pure acc else
-    let (name, options) := match splitOnce ':' network with
-      | some (n, o) => (n, some o)
-      | none => (network, none)
-    let isNet := endsWith name (s ".network")
-    let isCtr := endsWith name (s ".container")
-    let (name, svc) ← (if isNet || isCtr then
-        match E.info name with
-        | none => throw (Err.internal (s "unit") name)
-        | some i =>
-          if i.resourceName.isEmpty then throw (Err.resourceName name)
-          else
-            let f := serviceFileName i
-            pure (i.resourceName, addS (addS acc.2 "Unit" "Requires" f) "Unit" "After" f)
-      else pure (name, acc.2) : R (Str × SUnit))
-    match options with
-    | some o => if isCtr then throw .networkOptions else pure (acc.1 ++ [s "--network", name ++ ':' :: o], svc)
-    | none => if isCtr then pure (acc.1 ++ [s "--network", s "container:" ++ name], svc)
-              else pure (acc.1 ++ [s "--network", name], svc)) ([], svc)
+  (lookupAll u sec (s "Network")).foldlM (networkStep E) ([], svc)
 
 def publishPorts (u : SUnit) (sec : Str) : List Str := addAllStrings u sec Gen.tbl_handle_publish_ports_inline_lookup_and_add_all_strings
 
@@ -383,37 +395,50 @@ def isUrl (x : Str) : Bool :=
 
 def lower (x : Str) : Str := x.map fun c => if 'A' ≤ c ∧ c ≤ 'Z' then Char.ofNat (c.toNat + 32) else c
 
-/-- handle_set_working_directory (after D12c): returns the build context and the service -/
-def handleSetWorkingDirectory (unitPath : Str) (u : SUnit) (svc : SUnit) (sec : Str) : R (Str × SUnit) := do
-  let swd ← (match lookup u sec (s "SetWorkingDirectory") with
-    | none => pure [] | some v => pure v : R Str)
-  if swd.isEmpty then return ([], svc)
+/-- which file the working directory is derived from: `(build context, path the directory is taken of)` -/
+def swdTarget (unitPath : Str) (u : SUnit) (sec swd : Str) : R (Str × Str) :=
   let l := lower swd
-  let (context, rel) ← (
-    if l == s "yaml" then
-      if sec != s "Kube" then throw (Err.setWd swd)
-      else match lookup u sec (s "Yaml") with
-        | some y => pure ([], y) | none => throw Err.noYaml
-    else if l == s "file" then
-      if sec != s "Build" then throw (Err.setWd swd)
-      else match lookup u sec (s "File") with
-        | some f => pure ([], f) | none => throw Err.noFileKey
-    else if l == s "unit" then pure ([], unitPath)
-    else if sec != s "Build" then throw (Err.unsupported (s "SetWorkingDirectory") swd)
-    else if !isAbs swd then pure (swd, unitPath) else pure (swd, []) : R (Str × Str))
-  if !rel.isEmpty && !isUrl context then
-    match lookup u (s "Service") (s "WorkingDirectory") with
-    | some w => if !w.isEmpty then return ([], svc)
-    | none => pure ()
-    let f := absFromUnit unitPath rel
-    -- Path::parent of a cleaned path
-    match splitLast '/' f with
-    | none => if f.isEmpty then throw (Err.unsupported (s "SetWorkingDirectory") swd)
-              else return (context, addS svc "Service" "WorkingDirectory" [])
-    | some (d, b) =>
-      if b.isEmpty && d.isEmpty then throw (Err.unsupported (s "SetWorkingDirectory") swd)   -- "/"
-      else return (context, addS svc "Service" "WorkingDirectory" (if d.isEmpty then ['/'] else d))
-  return (context, svc)
+  if l == s "yaml" then
+    if sec != s "Kube" then .error (Err.setWd swd)
+    else match lookup u sec (s "Yaml") with
+      | some y => .ok ([], y) | none => .error Err.noYaml
+  else if l == s "file" then
+    if sec != s "Build" then .error (Err.setWd swd)
+    else match lookup u sec (s "File") with
+      | some f => .ok ([], f) | none => .error Err.noFileKey
+  else if l == s "unit" then .ok ([], unitPath)
+  else if sec != s "Build" then .error (Err.unsupported (s "SetWorkingDirectory") swd)
+  else if !isAbs swd then .ok (swd, unitPath) else .ok (swd, [])
+
+/-- handle_set_working_directory (after D12c) as data: the build context and, if one is to be added, the value of
+    `[Service] WorkingDirectory` -/
+def swdPlan (unitPath : Str) (u : SUnit) (sec : Str) : R (Str × Option Str) :=
+  let swd := (lookup u sec (s "SetWorkingDirectory")).getD []
+  if swd.isEmpty then .ok ([], none) else
+  match swdTarget unitPath u sec swd with
+  | .error e => .error e
+  | .ok (context, rel) =>
+    if !rel.isEmpty && !isUrl context then
+      if ((lookup u (s "Service") (s "WorkingDirectory")).map fun w => !w.isEmpty).getD false then .ok ([], none)
+      else
+        let f := absFromUnit unitPath rel
+        -- Path::parent of a cleaned path
+        match splitLast '/' f with
+        | none => if f.isEmpty then .error (Err.unsupported (s "SetWorkingDirectory") swd) else .ok (context, some [])
+        | some (d, b) =>
+          if b.isEmpty && d.isEmpty then .error (Err.unsupported (s "SetWorkingDirectory") swd)   -- "/"
+          else .ok (context, some (if d.isEmpty then ['/'] else d))
+    else .ok (context, none)
+
+def applyWd (svc : SUnit) (wd : Option Str) : SUnit :=
+  match wd with
+  | some d => addS svc "Service" "WorkingDirectory" d
+  | none => svc
+
+def handleSetWorkingDirectory (unitPath : Str) (u : SUnit) (svc : SUnit) (sec : Str) : R (Str × SUnit) :=
+  match swdPlan unitPath u sec with
+  | .error e => .error e
+  | .ok (context, wd) => .ok (context, applyWd svc wd)
 
 def logDriver (u : SUnit) (sec : Str) : List Str :=
   match lookup u sec (s "LogDriver") with
